@@ -344,3 +344,13 @@ check("C30", "internal/zzverif/c30",
                    {"name": "cgocheck", "pkg": "internal/zzverif/c30", "needs_rs": True, "buildenv": {"GOEXPERIMENT": "cgocheck2"}, "shards": {"quick": 2, "thorough": 8}, "mem_gb": 8}],
       floors={"any": {"round_trips_tiny": 15000, "round_trips_full": 400, "round_trips_from_parity_shards_only": 3000, "official_vectors_systematic_part_checked": 12, "round_trips_under_valgrind": 100}},
       assumptions=[STANDIN_VRF, "third-party crate reed-solomon-simd replaced by a stand-in MDS code (standin/rs-simd)"])
+
+check("C22", "internal/accumulation",
+      rule="case = one accumulation round: 2..4 sender services and 1..2 receiver services with purpose-built PVM code (a sender emits 5..20 transfers with memo = (marker, sender tag, counter), three quarters of them to the first receiver; a receiver fetches the whole input sequence and writes it under one storage key, so the delivery order becomes state), W* with one work result per sender; "
+           "accumulation.DeferredTransfers() is executed 12..24 times from identical deep copies of the prior state with types.MaxWorkers cycling through {1,2,32} and GOMAXPROCS through {16,1,2} (every execution draws fresh map-iteration orders), and a canonical projection of everything left behind (every account with storage, preimages and lookups; privileges; authorisation queues; next validators; accumulation outputs; gas statistics; accumulated history; ready queue; raw key-values as a set) must be equal across executions. distinct_nontrivial = distinct scenarios",
+      technique="run-vs-run equality monitor (the same round replayed under different worker limits, GOMAXPROCS and map-iteration draws), order made observable by recording services; Go race detector",
+      level_text="Each generated round is executed 12..24 times under different scheduling parameters and the complete posterior projections are compared; the race detector watches the fan-out. Held = all executions of every round identical and no race report.",
+      note="In-package harness (drives the blockchain singleton like jamtests/accumulate; W* is set directly, the queue equations are C21's subject). Only determinism is judged, not whether the delivery order is the Gray Paper's.",
+      shards=(8, 16), race=True, env={"JAM_FUZZ": "1"}, timeout=(1200, 7200),
+      floors={"any": {"rounds": 100, "repeated_runs_compared": 1200, "rounds_with_more_than_a_dozen_transfers_to_one_receiver": 60, "transfers_recorded_by_receivers": 2000}},
+      assumptions=[STANDIN_VRF])
